@@ -26,7 +26,18 @@ def _cls_set(repo, fi, exprs) -> Set[str]:
 
 
 def check(repo: Repo, R) -> None:
-    fw = repo.func(F_FLATTEN, "walk")
+    fentry = repo.func(F_FLATTEN, "walk")
+    # the function that walks one level, by role: the one that yields FlattenedInstance(..) — `walk` itself, or a
+    # recursive worker it hands its arguments to after filling in the top-level map
+    fw = fentry
+    workers = [f for f in repo.funcs_in(F_FLATTEN) if f.cls is None and any(isinstance(x, ast.Yield) and x.value is not None and "FlattenedInstance(" in ast.unparse(x.value) for x in ast.walk(f.node))]
+    if len(workers) == 1 and workers[0] is not fentry:
+        fw = workers[0]
+        deleg = [x for x in ast.walk(fentry.node) if isinstance(x, ast.YieldFrom) and isinstance(x.value, ast.Call) and ast.unparse(x.value.func) == fw.name and [ast.unparse(a) for a in x.value.args] == [a.arg for a in fentry.node.args.args] and not x.value.keywords]
+        if len(deleg) != 1 or shared.path_conditions(fentry.node, deleg[0]):
+            raise AnalysisError(f"idiom-unknown: {fentry.site} does not hand its own arguments to the one-level walker {fw.name}")
+    elif len(workers) != 1:
+        raise AnalysisError(f"idiom-unknown: no single function yielding FlattenedInstance in {F_FLATTEN}")
     ff = repo.func(F_FLATTEN, "flatten")
     fis = repo.func(F_FLATTEN, "is_flat")
     fpi = repo.func(F_FLATTEN, "FlattenedInstance.__post_init__")
@@ -42,7 +53,7 @@ def check(repo: Repo, R) -> None:
                 leaf_w = (n, _cls_set(repo, fw, r[1]))
     if leaf_w is None:
         raise AnalysisError(f"idiom-unknown: leaf test in {fw.site}")
-    rec = bool(pat.find("walk(inst.of, new_parents, new_conns)", ast.Module(leaf_w[0].orelse, [])))
+    rec = bool(pat.find(f"{fw.name}(inst.of, new_parents, new_conns)", ast.Module(leaf_w[0].orelse, [])))
     R.check(leaf_w[1] == want and rec, rule, key_of(fw), fw.at(leaf_w[0]), f"walk() yields a leaf for {sorted(leaf_w[1])} and recurses into everything else ({rec}); non-Module instantiables are {sorted(want)}",
             why="a hierarchy with an ExternalModule leaf below the top level crashes (or a primitive is recursed into)")
     s_is = set()
@@ -212,8 +223,8 @@ def check(repo: Repo, R) -> None:
     R.check(fresh, rule, key_of(fw, "child-map-fresh"), fw.site, f"the port map handed to an instance's target starts empty for every instance: {fresh}",
             why="bindings made for an earlier sibling instance stay in the map: a later sibling's internal net of the same name is merged with the earlier sibling's net")
     R.check(store and tot, rule, key_of(fw, "child-map"), fw.site, f"every connection of an instance is entered in the map handed to its target under the target's port name: {store and tot}", why="some ports of a sub-module are cut off from their parent net")
-    top_map = any(isinstance(n, ast.If) and ast.unparse(n.test) == "conns is None" and bool(pat.find("conns = {**m.signals, **m.ports}", n)) for n in au.walk_no_nested(fw.node))
-    R.check(top_map, rule, key_of(fw, "top-map"), fw.site, f"at the top level the map is the module's own signals and ports: {top_map}", why="top-level nets are renamed or lost")
+    top_map = any(isinstance(n, ast.If) and ast.unparse(n.test) == "conns is None" and bool(pat.find("conns = {**m.signals, **m.ports}", n)) for n in au.walk_no_nested(fentry.node))
+    R.check(top_map, rule, key_of(fentry, "top-map"), fentry.site, f"at the top level the map is the module's own signals and ports: {top_map}", why="top-level nets are renamed or lost")
     insts = [n for n in au.walk_no_nested(fw.node) if isinstance(n, ast.For) and ast.unparse(n.iter) == "m.instances.values()"]
     tot2 = len(insts) == 1 and not any(isinstance(x, (ast.Break, ast.Continue, ast.Return)) for x in ast.walk(insts[0]) if enclosing(fw.node, x, (ast.For,)) is insts[0])
     R.check(tot2, rule, key_of(fw, "every-instance"), fw.site, f"every instance of every level is visited: {tot2}", why="leaf devices are missing from the flat module")
